@@ -90,7 +90,7 @@ impl<'a> Exec<'a> {
         self.polls_per_task[id] += 1;
         let waker = self.wakers[id].clone();
         let mut cx = Context::from_waker(&waker);
-        match fut.as_mut().poll(&mut cx) {
+        match crate::ev::timed(|| fut.as_mut().poll(&mut cx)) {
             Poll::Ready(()) => {
                 self.tasks[id] = None;
                 true
